@@ -29,14 +29,17 @@ import (
 // that never test lengths rely on invariants established elsewhere and are not decided.
 
 type idxSite struct {
-	fn    *ssa.Function
-	pos   token.Pos
-	x     ssa.Value // the slice / string
-	need  int64
-	desc  string
-	ok    bool
-	byCmp bool
-	why   string
+	idx      ssa.Value // variable index: base+off must be below len(x)
+	variable bool
+	skip     bool // not decided at all
+	fn       *ssa.Function
+	pos      token.Pos
+	x        ssa.Value // the slice / string
+	need     int64
+	desc     string
+	ok       bool
+	byCmp    bool
+	why      string
 }
 
 func constIntVal(v ssa.Value) (int64, bool) {
@@ -517,6 +520,134 @@ func precedingStore(ld *ssa.UnOp) ssa.Value {
 	return nil
 }
 
+// baseOff: v as base + off with a constant off (following +/- constants and integer conversions).
+func baseOff(v ssa.Value) (ssa.Value, int64) {
+	off := int64(0)
+	for i := 0; i < 8; i++ {
+		v = stripConv(v)
+		b, ok := v.(*ssa.BinOp)
+		if !ok {
+			break
+		}
+		if k, isC := constIntVal(b.Y); isC && b.Op == token.ADD {
+			v, off = b.X, off+k
+			continue
+		}
+		if k, isC := constIntVal(b.Y); isC && b.Op == token.SUB {
+			v, off = b.X, off-k
+			continue
+		}
+		if k, isC := constIntVal(b.X); isC && b.Op == token.ADD {
+			v, off = b.Y, off+k
+			continue
+		}
+		break
+	}
+	return stripConv(v), off
+}
+
+// upperFact: on the given outcome of cond, a fact base + A < len(x): returns (base, x, A).
+func upperFact(cond ssa.Value, outcome bool) (ssa.Value, ssa.Value, int64, bool) {
+	if u, ok := cond.(*ssa.UnOp); ok && u.Op == token.NOT {
+		return upperFact(u.X, !outcome)
+	}
+	b, ok := cond.(*ssa.BinOp)
+	if !ok {
+		return nil, nil, 0, false
+	}
+	op := b.Op
+	if !outcome {
+		switch op {
+		case token.LSS:
+			op = token.GEQ
+		case token.LEQ:
+			op = token.GTR
+		case token.GTR:
+			op = token.LEQ
+		case token.GEQ:
+			op = token.LSS
+		default:
+			return nil, nil, 0, false
+		}
+	}
+	l, r := b.X, b.Y
+	switch op {
+	case token.GTR:
+		l, r, op = r, l, token.LSS
+	case token.GEQ:
+		l, r, op = r, l, token.LEQ
+	}
+	if op != token.LSS && op != token.LEQ {
+		return nil, nil, 0, false
+	}
+	// l (<|<=) r with r = len(x) - c
+	x, c, ok := lenMinus(r)
+	if !ok {
+		return nil, nil, 0, false
+	}
+	base, a := baseOff(l)
+	if _, isC := base.(*ssa.Const); isC {
+		return nil, nil, 0, false
+	}
+	A := a + c
+	if op == token.LEQ {
+		A--
+	}
+	return base, x, A, true
+}
+
+// proveVar: idx < len(x) at the instruction, from dominating comparisons.
+func (bc *boundsCtx) proveVar(s *idxSite, at ssa.Instruction) {
+	base, off := baseOff(s.idx)
+	if off < 0 {
+		s.skip = true
+		s.why = "index with a negative offset (lower bound not decided)"
+		return
+	}
+	try := func(cond ssa.Value, outcome bool, from, to *ssa.BasicBlock) bool {
+		fb, fx, A, ok := upperFact(cond, outcome)
+		if !ok || off > A || !bc.sameSeq(fx, s.x) {
+			return false
+		}
+		if fb != base {
+			// two evaluations of len(y) for one y are the same number
+			ly, lb := lenOf(fb), lenOf(base)
+			if ly == nil || lb == nil || !bc.sameSeq(ly, lb) {
+				return false
+			}
+		}
+		if fx != s.x {
+			if ld, isLd := s.x.(*ssa.UnOp); isLd && bc.storeBetween(from, to, at, ld.X) {
+				return false
+			}
+		}
+		return true
+	}
+	ub := at.Block()
+	for b := ub.Idom(); b != nil; b = b.Idom() {
+		iff, ok := b.Instrs[len(b.Instrs)-1].(*ssa.If)
+		if !ok {
+			continue
+		}
+		for si, succ := range b.Succs {
+			if succ == b.Succs[1-si] || !succ.Dominates(ub) {
+				continue
+			}
+			entryOK := true
+			for _, p := range succ.Preds {
+				if p != b && !succ.Dominates(p) {
+					entryOK = false
+				}
+			}
+			if entryOK && try(iff.Cond, si == 0, b, succ) {
+				s.ok, s.byCmp, s.why = true, true, "under a dominating test that the index is below the length"
+				return
+			}
+		}
+	}
+	s.why = "no dominating test shows the index to be below the length"
+}
+
 func seqName(v ssa.Value) string {
 	n := pathName(v)
 	if n == "" {
@@ -553,7 +684,22 @@ func boundsSites(fn *ssa.Function) []*idxSite {
 		}
 		if lx, c, ok := lenMinus(idx); ok && c >= 1 && bc.sameSeq(lx, x) {
 			add(at, x, c, fmt.Sprintf("%s[len-%d]", seqName(x), c))
+			return
 		}
+		if !boundsVarIndex || !isSliceOrString(x.Type()) {
+			return
+		}
+		if isRangeIndex(idx) {
+			return // the index variable of a range loop over x: in bounds by construction
+		}
+		base, off := baseOff(idx)
+		desc := fmt.Sprintf("%s[%s", seqName(x), seqName(base))
+		if off != 0 {
+			desc += fmt.Sprintf("%+d", off)
+		}
+		s := &idxSite{fn: fn, pos: at.Pos(), x: x, idx: idx, desc: desc + "]", variable: true}
+		bc.proveVar(s, at)
+		out = append(out, s)
 	}
 	for _, b := range fn.Blocks {
 		for _, ins := range b.Instrs {
@@ -598,21 +744,36 @@ var boundsDisciplined = [][2]string{
 	{"json", "navigation.ContextString"}, {"json", "scan"},
 }
 
+// Functions in which every variable index x[i] (i with a non-negative constant offset) was proven
+// to be below len(x) on the reference tree.
+var boundsVarDisciplined = [][2]string{
+	{"ext/dynblock", "expandBody.decodeSpec"}, {"hclsyntax", "FunctionCallExpr.Value"}, {"hclsyntax", "meldConsecutiveStringLiterals"},
+	{"hclsyntax", "peeker.nextToken"}, {"hclwrite", "formatSpaces"}, {"hclwrite", "partitionLineEndTokens"},
+	{"hclwrite", "partitionTokens"}, {"json", "scanKeyword"}, {"json", "scanNumber"},
+	{"json", "scanString"}, {"json", "skipWhitespace"},
+}
+
 // Named exceptions: unproven sites in disciplined functions, with the invariant that makes them safe.
 var boundsExceptions = map[string]string{}
 
 var dumpBounds = os.Getenv("HCLCHECK_DUMP_BOUNDS") != ""
+var boundsVarIndex = true
 var bc0 = &boundsCtx{}
 
 func c15BoundedIndex(c *Ctx) {
-	c.Rule("R10 bounded.index (contradiction rule): in hcl, hclsyntax, json, hclwrite, hcldec, ext/dynblock, a sequence whose length is tested before one constant or last-element index/slice in a function is tested before every such index in that function, and the functions in which every such index was proven on the reference tree (table) keep every one proven: x[c] under len(x) ≥ c+1, x[len(x)-c] and x[:len(x)-c] under len(x) ≥ c, on every path, by dominating comparisons of len(x) with constants or by construction (make/append/literal). Sequences that are never length-tested in a function rely on invariants established elsewhere and are not decided")
+	c.Rule("R10 bounded.index (contradiction rule): in hcl, hclsyntax, json, hclwrite, hcldec, ext/dynblock, a sequence whose length is tested before one constant or last-element index/slice in a function is tested before every such index in that function, and the functions in which every such index was proven on the reference tree (table) keep every one proven: x[c] under len(x) ≥ c+1, x[len(x)-c] and x[:len(x)-c] under len(x) ≥ c, on every path, by dominating comparisons of len(x) with constants or by construction (make/append/literal). Sequences that are never length-tested in a function rely on invariants established elsewhere and are not decided. Variable indices x[i+k] (k ≥ 0, not the index variable of a range loop) are decided in the functions where every one of them was proven on the reference tree (table): each stays under a dominating comparison i+k < len(x) (in any of its forms, also through len(x)-c); negative offsets and lower bounds are not decided")
 	fns := c.P.pkgFuncs("hcl", "hclsyntax", "json", "hclwrite", "hcldec", "ext/dynblock")
 	sort.Slice(fns, func(i, j int) bool { return FuncName(fns[i]) < FuncName(fns[j]) })
 	nDisc, nSites, nSkipped := 0, 0, 0
-	refFn := map[*ssa.Function]bool{}
+	refFn, refVarFn := map[*ssa.Function]bool{}, map[*ssa.Function]bool{}
 	for _, e := range boundsDisciplined {
 		if f := c.P.LookupFunc(e[0], e[1]); f != nil {
 			refFn[f] = true
+		}
+	}
+	for _, e := range boundsVarDisciplined {
+		if f := c.P.LookupFunc(e[0], e[1]); f != nil {
+			refVarFn[f] = true
 		}
 	}
 	for _, fn := range fns {
@@ -628,34 +789,58 @@ func c15BoundedIndex(c *Ctx) {
 		}
 		name := FuncName(fn)
 		byCmp := false
+		varAll, varAny := true, false
 		for _, s := range sites {
+			if s.skip {
+				continue
+			}
+			if s.variable {
+				varAny = true
+				varAll = varAll && s.ok
+				continue
+			}
 			if s.byCmp {
 				byCmp = true
 			}
 		}
-		ref := refFn[fn]
-		if !byCmp && !ref {
-			nSkipped += len(sites)
-			continue
-		}
-		nDisc++
-		c.Fn(name)
-		if dumpBounds && byCmp {
+		ref, refVar := refFn[fn], refVarFn[fn]
+		if dumpBounds && fn.Parent() == nil {
 			all := true
 			for _, s := range sites {
-				all = all && s.ok
+				if !s.variable && !s.skip {
+					all = all && s.ok
+				}
 			}
-			if all && fn.Parent() == nil {
-				k, _ := funcKeyAndSig(fn)
+			k, _ := funcKeyAndSig(fn)
+			if all && byCmp {
 				fmt.Printf("BOUNDS-REF\t{%q, %q},\n", shortPkg(fnPkg(fn).Path()), k)
 			}
+			if varAny && varAll {
+				fmt.Printf("BOUNDS-VAR\t{%q, %q},\n", shortPkg(fnPkg(fn).Path()), k)
+			}
 		}
+		counted := false
 		for _, s := range sites {
-			if !s.ok && !ref {
+			if s.skip {
+				nSkipped++
+				continue
+			}
+			if s.variable {
+				// variable indices: only in the functions where every one was proven on the reference tree
+				if !refVar {
+					if !s.ok {
+						nSkipped++
+					}
+					continue
+				}
+			} else if !byCmp && !ref {
+				nSkipped++
+				continue
+			} else if !s.ok && !ref {
 				// contradiction: the same sequence is tested before another index in this function
 				tested := false
 				for _, t := range sites {
-					if t.byCmp && bc0.sameSeq(t.x, s.x) {
+					if !t.variable && t.byCmp && bc0.sameSeq(t.x, s.x) {
 						tested = true
 					}
 				}
@@ -664,6 +849,11 @@ func c15BoundedIndex(c *Ctx) {
 					continue
 				}
 			}
+			if !counted {
+				counted = true
+				nDisc++
+				c.Fn(name)
+			}
 			nSites++
 			c.Sites++
 			key := fmt.Sprintf("%s:%s", name, s.desc)
@@ -671,8 +861,12 @@ func c15BoundedIndex(c *Ctx) {
 				c.OK("bounded.index", key, s.pos, "named exception: "+exc)
 				continue
 			}
+			what := fmt.Sprintf("%s needs len ≥ %d but %s", s.desc, s.need, s.why)
+			if s.variable {
+				what = s.desc + ": " + s.why
+			}
 			c.Check(s.ok, "bounded.index", key, s.pos, s.why,
-				fmt.Sprintf("%s needs len ≥ %d but %s, while other indexing in this function is guarded: panics (index out of range) on input for which the sequence is shorter", s.desc, s.need, s.why))
+				what+", while other indexing in this function is guarded: panics (index out of range) on input for which the sequence is shorter")
 		}
 	}
 	c.Floor("bounded.index disciplined functions", nDisc, 8, "functions of the front ends that guard their constant / last-element indexing")
